@@ -119,10 +119,13 @@ def explore(item, ctx, seed, easy_menu, clauses, quarter=True):
                 mv = {}
                 for method in METHODS:
                     t = res[method]
-                    tb = np.array([step(x, -4) for x in t.tolist()])
-                    ta = np.array([step(x, 4) for x in t.tolist()])
-                    mv[method] = (np.asarray(M(t), dtype=float), np.asarray(M(tb), dtype=float),
-                                  np.asarray(M(ta), dtype=float))
+                    m_t = np.asarray(M(t), dtype=float)
+                    if "roundtrip" in clauses and method == "linear":
+                        tb = np.array([step(x, -4) for x in t.tolist()])
+                        ta = np.array([step(x, 4) for x in t.tolist()])
+                        mv[method] = (m_t, np.asarray(M(tb), dtype=float), np.asarray(M(ta), dtype=float))
+                    else:
+                        mv[method] = (m_t, m_t, m_t)
                 for j, r in enumerate(targets):
                     rh = min(max(r, lo), hi)
                     if clauses == {"extremes"}:
